@@ -474,6 +474,9 @@ def check_node(impl, x, where, hits):
     if spec.max_size is not None and n > spec.max_size:
       hits.append(('size-above-max', '-', '%s: %d elements, max_size is %d' % (where, n, spec.max_size)))
     for i, v in x.sym_items():
+      if isinstance(v, P.utils.MissingValue) and not partial:
+        hits.append(('required-missing', 'list-placeholder', '%s: element %d is MISSING_VALUE (the placeholder of a removed element) in a list that does not accept partial values' % (where, i)))
+        continue
       check_member(x, i, v, spec.element, partial, where, hits)
     return
   schema = spec.schema
@@ -512,6 +515,7 @@ def check_forest(impl):
 
 NONFIX_SIGNATURE = 'C03/member-not-fixpoint/apply/Union-result-dispatches-to-another-candidate'
 FOREIGN_SIGNATURE = 'C03/symbolic-value/child-keeps-its-own-spec/later-write'
+PLACEHOLDER_SIGNATURE = 'C03/required-missing/copy-of-a-partial-list/placeholder-kept'
 
 # ---- when may a value that carries its own spec stand in a field: the rule, written independently of the library ----------------------
 # (the intended is_compatible: Typing.compat of coq/Model/Typing.v without quirk flags, on spec trees)
@@ -628,7 +632,7 @@ def cause_signature(impl, clause, by_reference, accepted):
   if new:
     return 'C03/symbolic-value/looser-spec-accepted/%s' % new[0].split(':')[0]
   if by_reference:
-    return 'C03/symbolic-value/%s/%s' % ('required-missing' if clause == 'required-missing' else 'other-clause', 'accepted' if accepted else 'rejected')
+    return 'C03/symbolic-value/other-clause/accepted'      # (the value was accepted, whatever became of the rest of a batch)
   return FOREIGN_SIGNATURE
 BATCH_OPS = {D.LEXTEND, D.LIADD, D.LIMUL, D.DUPDATE, D.DIOR, D.REBIND, LSETSLICE}
 
@@ -746,6 +750,8 @@ class Oracle:
     """(property, clause, operation kind, discriminator).  Two families are keyed by their cause rather than by the symptom, because
     one defect shows up under many clauses and operations: a symbolic value (a reference to a pg.Dict / pg.List / pg.Object, or a
     constructed one) written into a spec-checked container, and a write below the container held by a frozen field."""
+    if clause == 'required-missing' and disc == 'list-placeholder' and op[0] in (D.LCOPY, D.LADD):
+      return PLACEHOLDER_SIGNATURE
     if clause == 'partial-object-accepted':
       return 'C03/partial-object-accepted/%s/%s' % (name, disc)
     if self.by_reference or clause in ('member-rejected', 'member-not-fixpoint', 'required-missing', 'frozen-differs', 'looser-spec-accepted'):
@@ -1484,6 +1490,13 @@ def corpus():
       (NS, [D.DSET, Pp(0), 0, ek('a'), PV('s')]), (NS, [D.DSET, Pp(0), 0, ek('a'), PV([1, 2])]), (NS, [D.DSET, Pp(0), 0, ek('a'), PV([1, 2, 3])]),
       (NS, [D.DSET, Pp(0), 0, ek('a'), PV(-1)]), (NS, [D.DSET, Pp(0), 0, ek('q'), PV(1)]), (NS, [D.DSET, Pp(0), 0, ek('q'), PV(3.0)]),
       (NS, [D.DSET, Pp(0), 0, ek(3), PV(1)]), (NS, [D.DDEL, Pp(0), 0, ek('q')]), (NS, [D.DDEL, Pp(0), 0, ek('a')]), (NS, [D.LAPPEND, Pp(0, 'a'), PV(1)])]), True)
+  tb2 = Table(); Di = tb2.add(T.Dict([('y', T.Dict([('b', T.Bool()), ('c', T.Int(default=1))]))]))
+  out['refused-symbolic-value-is-left-as-it-was'] = (mkcase(tb2, [troot(0, Di, {'y': {'b': True}}), [0, D.mk({'c': 2})], [0, D.mk([{'c': 2}])]], [(NS, [D.DSET, Pp(0), 0, ek('y'), [1, 1, []]]), (NS, [D.DSET, Pp(0), 0, ek('y'), [1, 1, []]]), (NS, [D.REBIND, Pp(0), [[[ek('y')], [1, 1, []]]]]), (NS, [D.DUPDATE, Pp(0), [[ek('y'), [1, 1, []]]]]), (NS, [D.DSET, Pp(0), 0, ek('y'), [1, 2, [ek(0)]]])]), False)
+  tb3 = Table(); An = tb3.add(T.Dict([('x', T.Any())])); Pa = tb3.add(T.Dict([('c', T.Int()), ('b', T.Bool(default=True))]))
+  out['partial-value-made-non-partial'] = (mkcase(tb3, [troot(0, An, {'x': 1}), troot(0, Pa, {}, partial=1)], [(NS, [D.DSET, Pp(0), 0, ek('x'), [1, 1, []]]), (NS, [D.DSET, Pp(0), 0, ek('x'), [1, 1, []]]), (NS, [D.REBIND, Pp(0), [[[ek('x')], [1, 1, []]]]])]), False)
+  tb6 = Table(); Ay = tb6.add(T.Dict([('x', T.Any()), ('y', T.Int())])); Pb = tb6.add(T.Dict([('c', T.Int()), ('b', T.Bool(default=True))]))
+  out['partial-value-in-a-refused-batch'] = (mkcase(tb6, [troot(0, Ay, {'x': 1, 'y': 1}), troot(0, Pb, {}, partial=1)],
+                                                             [(NS, [D.DUPDATE, Pp(0), [[ek('x'), [1, 1, []]], [ek('y'), PV('bad')]]])]), False)
   return out
 
 def open_witnesses():
@@ -1492,19 +1505,14 @@ def open_witnesses():
   out = {}
   tb = Table(); Fz = tb.add(T.Dict([('a', T.Dict([('b', T.Int())]).freeze({'b': 1})), ('l', T.List(T.Int()).freeze([1]))]))
   out['frozen-container-written-in-depth'] = mkcase(tb, [troot(0, Fz, {})], [(NS, [D.DSET, Pp(0, 'a'), 0, ek('b'), PV(2)])])
-  tb2 = Table(); Di = tb2.add(T.Dict([('y', T.Dict([('b', T.Bool()), ('c', T.Int(default=1))]))]))
-  out['spec-bound-before-validation'] = mkcase(tb2, [troot(0, Di, {'y': {'b': True}}), [0, D.mk({'c': 2})]], [(NS, [D.DSET, Pp(0), 0, ek('y'), [1, 1, []]])])
-  tb3 = Table(); An = tb3.add(T.Dict([('x', T.Any())])); Pa = tb3.add(T.Dict([('c', T.Int()), ('b', T.Bool(default=True))]))
-  out['partial-flag-overridden'] = mkcase(tb3, [troot(0, An, {'x': 1}), troot(0, Pa, {}, partial=1)], [(NS, [D.DSET, Pp(0), 0, ek('x'), [1, 1, []]])])
   tb5 = Table(); Fa = tb5.add(T.Dict([('x', T.Union([T.Int(), T.Any().freeze(1)]))])); Li = tb5.add(T.List(T.Int()))
   out['typed-value-accepted-by-compatibility-only'] = mkcase(tb5, [troot(0, Fa, {'x': 2}), troot(1, Li, [])], [(NS, [D.DSET, Pp(0), 0, ek('x'), [1, 1, []]])])
-  tb6 = Table(); Ay = tb6.add(T.Dict([('x', T.Any()), ('y', T.Int())])); Pb = tb6.add(T.Dict([('c', T.Int()), ('b', T.Bool(default=True))]))
-  out['partial-flag-overridden-in-a-refused-batch'] = mkcase(tb6, [troot(0, Ay, {'x': 1, 'y': 1}), troot(0, Pb, {}, partial=1)],
-                                                             [(NS, [D.DUPDATE, Pp(0), [[ek('x'), [1, 1, []]], [ek('y'), PV('bad')]]])])
   tb7 = Table(); Ll = tb7.add(T.List(T.List(T.Union([T.Int(), T.Any().freeze(1)]))))
   out['typed-child-keeps-its-own-spec'] = mkcase(tb7, [troot(1, Ll, [])], [(NS, [D.LINSERT, Pp(0), 0, [1, 0, []]]), (NS, [D.REBIND, Pp(0), [[[ek(0), ek(0)], PV([None])]]])])
   tb8 = Table(); Mn = tb8.add(T.Dict([('f', T.List(T.Int(), min_size=2))])); Lo = tb8.add(T.List(T.Int()))
   out['typed-list-with-smaller-min_size'] = mkcase(tb8, [troot(0, Mn, {'f': [1, 2]}), troot(1, Lo, [1, 2])], [(NS, [D.DSET, Pp(0), 0, ek('f'), [1, 1, []]]), (NS, [D.LPOP, Pp(0, 'f'), []])])
+  tb9 = Table(); Pl = tb9.add(T.List(T.Int(), max_size=4))
+  out['copy-of-a-partial-list-keeps-placeholders'] = mkcase(tb9, [troot(1, Pl, [1, 2], partial=1)], [(D.sc(notify=[False]), [D.LSET, Pp(0), 0, PV(MISSING())]), (NS, [D.LCOPY, Pp(0)])])
   tb4 = Table(); Un = tb4.add(T.Dict([('a', T.Union([T.Enum(True, [1, 'a']).freeze(), T.Bool().freeze(False)]))]))
   out['union-result-dispatches-to-another-candidate'] = mkcase(tb4, [troot(0, Un, {}, partial=1)], [(NS, [D.DSET, Pp(0), 0, ek('a'), PV(1.0)])])
   return out
